@@ -31,6 +31,10 @@ def verifyPayable (env : Env) (a : Bytes) : M Unit := do
   | .no => fail AccountNotPayable
   | .err => fail Other
 
+/-- the optional payability query -/
+def verifyPayableIf (env : Env) (must : Bool) (a : Bytes) : M Unit :=
+  if must then verifyPayable env a else pure ()
+
 /-- `esdtPause.IsPaused` (fail-soft lookup through the shard's system account) -/
 def isPaused (key : Bytes) : M Bool := do
   let v ← readKey systemAccountAddress key
@@ -199,7 +203,7 @@ def esdtTransfer (env : Env) (c : Call) : M VMOutput := do
   let isSCCallAfter := isSmartContractAddress c.rcv && c.args.length > 2
   let out : VMOutput := { gasRemaining := gasRemaining, rc := 0 }
   if dstP then
-    if mustVerifyPayable c 2 then verifyPayable env c.rcv
+    verifyPayableIf env (mustVerifyPayable c 2) c.rcv
     addToESDTBalance c.rcv key value c.rae
     if isSCCallAfter then
       let out := { out with gasRemaining := (safeSubUint64 c.gas cost).getD 0 }
@@ -576,10 +580,6 @@ def setUserName (env : Env) (c : Call) : M VMOutput := do
 
 /-! ### ESDTNFTTransfer (esdtNFTTransfer.go) -/
 
-/-- the optional payability query -/
-def verifyPayableIf (env : Env) (must : Bool) (a : Bytes) : M Unit :=
-  if must then verifyPayable env a else pure ()
-
 /-- the hash comparison of `addNFTToDestination` (dereferences the transferred token's metadata) -/
 def checkSameHash (cur t : Token) : M Unit :=
   match cur.md with
@@ -766,7 +766,7 @@ def multiDestLoop (env : Env) (c : Call) (minArgs : Nat) : Nat → Nat → M (Li
       let t ← unmarshalToken a2
       let _ ← addNFTToDestination env c.rcv t tokenKey (mustVerifyPayable c minArgs) c.rae
     else
-      if mustVerifyPayable c minArgs then verifyPayable env c.rcv
+      verifyPayableIf env (mustVerifyPayable c minArgs) c.rcv
       addToESDTBalance c.rcv tokenKey (beNat a2) c.rae
     let log := nftLog fnMultiESDTNFTTransfer c.caller tokenID nonce [c.rcv]
     let logs ← multiDestLoop env c minArgs n (idx + 3)
